@@ -37,7 +37,13 @@ def vtok (b : Bytes) : String :=
   | x :: _ => if b.length ≥ 64 && b.all (· == x) then s!"z{b.length}:{String.ofList [hexNibble (x / 16), hexNibble (x % 16)]}" else hex b
 
 /-- canonical form of a value token read from a history line -/
-def canonVal (tok : String) : Val := if tok.startsWith "z" then tok else vtok (unhex tok)
+def canonVal (tok : String) : Val :=
+  if tok.startsWith "z" then
+    -- `z<len>:<hh>` is canonical only for len ≥ 64
+    match (tok.drop 1).toString.splitOn ":" with
+    | [n, b] => if n.toNat! < 64 then vtok (List.replicate n.toNat! ((unhex b).headD 0)) else tok
+    | _ => tok
+  else vtok (unhex tok)
 
 abbrev DBS := Spec.DB Bytes Val
 abbrev ItemS := Bytes × Spec.Item Val
@@ -176,6 +182,18 @@ def stepOp (s : St) (f : List String) : Step :=
             let h : Handle := { id := num 2, tx := tx.id, path := hp.path ++ [name], alive := true }
             let s1 := s.setTx { tx with db := db' }
             ⟨{ s1 with handles := h :: s1.handles.filter (fun x => !(x.id == h.id && x.tx == h.tx)) }, ["ok"]⟩
+    else if op == "iterb" then
+      -- handles yielded by the buckets() iterator of handle (num 3), bound to (num 2), (num 2)+1, ...
+      match s.handle? tx.id (num 3) with
+      | none => ⟨s, ["?unknown-handle"]⟩
+      | some hp =>
+        if hp.orphan then ⟨s, []⟩
+        else if !hp.alive then ⟨s, ["panic:deleted"]⟩
+        else
+          let names := Spec.bucketsOf (Spec.scan tx.db hp.path)
+          let hs : List Handle := (names.zipIdx).map (fun (nm, i) => { id := num 2 + i, tx := tx.id, path := hp.path ++ [nm], alive := true })
+          let others := s.handles.filter (fun x => !(x.tx == tx.id && hs.any (fun h => h.id == x.id)))
+          ⟨{ s with handles := hs ++ others }, [fmtList (names.map (fun k => "B:" ++ hex k))]⟩
     else if op == "delb" then
       match s.handle? tx.id (num 2) with
       | none => ⟨s, ["?unknown-handle"]⟩
